@@ -546,6 +546,8 @@ void ghost_point() {
     point();
     tl_inrt--;
 }
+void quiet_begin() { tl_inrt++; }
+void quiet_end() { tl_inrt--; }
 int self() { return tl_tid; }
 long step() { return g_points; }
 bool controlled() { return g_controlled != 0; }
@@ -877,11 +879,13 @@ int main(int argc, char** argv) {
     const char* replay = nullptr;
     const char* conflicts = nullptr;
     bool forced = false, list = false;
+    std::vector<int> sel;
     for (int i = 1; i < argc; i++) {
         std::string a = argv[i];
         if (a == "--list") list = true;
         else if (a == "--explore" && i + 1 < argc) { from = atoi(argv[++i]); to = from + 1; }
         else if (a == "--range" && i + 2 < argc) { from = atoi(argv[++i]); to = atoi(argv[++i]); }
+        else if (a == "--scenarios" && i + 1 < argc) { for (unsigned long x : parse_ulist(argv[++i])) sel.push_back((int)x); from = 0; to = 0; }
         else if (a == "--bound" && i + 1 < argc) bound = atoi(argv[++i]);
         else if (a == "--max-exec" && i + 1 < argc) max_exec = atol(argv[++i]);
         else if (a == "--budget" && i + 1 < argc) budget = atof(argv[++i]);
@@ -927,7 +931,9 @@ int main(int argc, char** argv) {
         return bad ? 1 : 0;
     }
     int rc = 0;
-    for (int s = from; s < to && s < nsc; s++) {
+    for (int s = from; s < to && s < nsc; s++) sel.push_back(s);
+    for (int s : sel) {
+        if (s < 0 || s >= nsc) continue;
         double t0 = now();
         memset(S, 0, sizeof(Shared));
         S->use_dpoints = dpoints;
